@@ -238,6 +238,7 @@ def oracle(ctx):
     operator_history_probe(ctx)
     nested_sum_names_probe(ctx)
     substituted_forward_probe(ctx)
+    options_snapshot_probe(ctx)
 
 
 def operator_reuse_probe(ctx):
@@ -472,6 +473,46 @@ def backward_options_probe(ctx):
         elif b2 - b1 < 1:
             ctx.fail("oracle", "solvegrad:backward-method-ignored:second-order", info, {"backward_solver_calls": b2 - b1},
                      "the backward solver also runs when the backward pass is differentiated")
+
+
+def options_snapshot_probe(ctx):
+    """the backward pass runs with the options as they were GIVEN at the call: a caller who keeps one options dictionary and changes an
+    entry after the forward call (a looser tolerance for the next solve, another method) does not change the gradients of the earlier
+    result, and solve does not write into the caller's dictionaries (round-5 seed C02/14: the context kept the caller's bck_options
+    dictionary itself instead of a copy)"""
+    import xitorch as xt
+    from xitorch.linalg import solve
+    g = torch.Generator().manual_seed(ctx.seed + 71)
+    n = 6
+    A0 = torch.randn(n, n, dtype=DT, generator=g) * 0.3 + 3.0 * torch.eye(n, dtype=DT)
+    B0 = torch.randn(n, 2, dtype=DT, generator=g)
+    for fwd_method, bck_method in (("bicgstab", "bicgstab"), ("exactsolve", "cg"), ("cg", "bicgstab")):
+        outs = []
+        for mutate in (False, True):
+            A = A0.clone().requires_grad_()
+            B = B0.clone().requires_grad_()
+            bck = {"method": bck_method, "rtol": 1e-12, "atol": 1e-14}
+            fwd = {"rtol": 1e-12, "atol": 1e-14} if fwd_method != "exactsolve" else {}
+            bck_before, fwd_before = dict(bck), dict(fwd)
+            with warnings.catch_warnings():
+                warnings.simplefilter("ignore")
+                X = solve(xt.LinearOperator.m(A, is_hermitian=False), B, method=fwd_method, bck_options=bck, **fwd)
+                untouched = bck == bck_before and fwd == fwd_before
+                if mutate:
+                    bck["rtol"] = 0.5
+                    bck["atol"] = 0.5
+                    bck["max_niter"] = 1
+                gA, gB = torch.autograd.grad((X * X).sum(), (A, B))
+            outs.append((gA, gB, untouched))
+        ctx.count(("options-snapshot", fwd_method, bck_method), nontrivial=True)
+        info = {"fwd_method": fwd_method, "bck_options": {"method": bck_method, "rtol": 1e-12, "atol": 1e-14},
+                "changed_after_the_forward_call": {"rtol": 0.5, "atol": 0.5, "max_niter": 1}}
+        if not (outs[0][2] and outs[1][2]):
+            ctx.fail("oracle", "solvegrad:options:callers-dictionary-modified", info, "modified", "solve leaves the caller's option dictionaries alone")
+        d = max(float((outs[0][0] - outs[1][0]).abs().max()), float((outs[0][1] - outs[1][1]).abs().max()))
+        if not d == 0.0:
+            ctx.fail("oracle", "solvegrad:options:changed-after-the-call", info, {"max_gradient_difference": d},
+                     "bitwise the gradients obtained when the dictionary is left alone")
 
 
 def search(ctx):
